@@ -10,7 +10,8 @@ EXTENDS Naturals, Sequences, TLC
 
 UpTbl == [name |-> "NAME", Name |-> "NAME", expectfail |-> "EXPECTFAIL", ExpectFail |-> "EXPECTFAIL"]
 Up(s) == IF s \in DOMAIN UpTbl THEN UpTbl[s] ELSE s
-StripTbl == ("_p_@" :> "@") @@ ("_p_a" :> "a") @@ ("_p_b" :> "b") @@ ("_p_self" :> "self")
+\* (the pattern the harness configures is "^_p_|_s$": a prefix or a suffix; "_p_" alone is matched entirely)
+StripTbl == ("_p_@" :> "@") @@ ("_p_a" :> "a") @@ ("_p_b" :> "b") @@ ("_p_self" :> "self") @@ ("a_s" :> "a") @@ ("_p_" :> "")
 StripP(s) == IF s \in DOMAIN StripTbl THEN StripTbl[s] ELSE s
 Map(f(_), s) == [j \in 1..Len(s) |-> f(s[j])]
 
